@@ -7,6 +7,7 @@ import Driver.NamesDrv
 import Driver.ConcDrv
 import Driver.ResumeDrv
 import Driver.DurableDrv
+import Driver.ShutdownDrv
 open Driver
 
 def runDomain (dom : String) (lines : Array String) : Array String :=
@@ -21,6 +22,7 @@ def runDomain (dom : String) (lines : Array String) : Array String :=
   | "resume" => ResumeDrv.runCase lines
   | "durable" => DurableDrv.runCase lines
   | "durablecheck" => DurableDrv.runJudge lines
+  | "shutdown" => ShutdownDrv.runCase lines
   | _ => #["unknown-domain " ++ dom]
 
 def main (args : List String) : IO UInt32 := do
